@@ -157,9 +157,20 @@ class ProgGen:
     def packet_expr(self, typ, depth):
         r = self.r
         ms = self.method_calls_returning(typ)
+        free = [f for f in self.lib.free_funcs if f['return_type'] in ('Pkt', 'PktGen') and compatible(typ, f['return_type'])]
+        if depth >= 6:
+            # packets made of packets (tunnel sessions, datagrams of frames) recurse through here: past this
+            # depth only builders that take no packet are chosen, so generation always terminates
+            def takes_pkt(f):
+                return f['collect_type'] in ('Pkt', 'PktGen') or any(
+                    a['kind'] == 'pos' and a['type'] in ('Pkt', 'PktGen') for a in f['args'])
+            leaf = [f for f in free if not takes_pkt(f)]
+            if leaf:
+                self.stat('packet_leaf')
+                return self.call(r.choice(leaf), depth + 1)
         if ms and r.chance(2, 3):
             return self.method_call(*r.choice(ms), depth=depth + 1)
-        f = r.choice([f for f in self.lib.free_funcs if f['return_type'] in ('Pkt', 'PktGen') and compatible(typ, f['return_type'])])
+        f = r.choice(free)
         return self.call(f, depth + 1)
 
     def args_for(self, f, depth):
